@@ -325,6 +325,37 @@ def nontrivial(case, impl):
     return bool(m) and int(m.group(1)) >= 2
 
 
+SHARED_SIG = 'managed-object-owned-by-one-thread-mutated-by-another-while-the-owner-collects'
+SHARED_WITNESS = '1s|0|S1 S2 w7,3000 J1 J2|w8,400|w8,400'
+
+
+def classify(case, impl, why):
+    """open finding: case flag s = the shared Array of work kind 8 is owned by the main thread's collector"""
+    if 's' in case.split('|')[0] and 'w8,' in case:
+        return SHARED_SIG
+    return None
+
+
+def known_finding_probe(ctx, run_impl):
+    """runs the witness of the open finding (up to 3 times: it is a race) and prints KNOWN-FINDING when it
+    reproduces; the generators never produce flag s, so nothing else is excused by it"""
+    fs = [f for f in ctx.findings if f.get('property') == 'C13' and f.get('signature') == SHARED_SIG]
+    if not fs:
+        mine = os.path.join(vlib.VERIF, 'findings.d', 'C13.json')
+        fs = [f for f in json.load(open(mine)) if f.get('signature') == SHARED_SIG] if os.path.exists(mine) else []
+    if not fs or fs[0].get('status') != 'open':
+        return
+    for attempt in range(3):
+        out = run_impl([SHARED_WITNESS])
+        ctx.cov['evaluations'] += 1
+        if out and 'bad' in parse_impl(out[0]):
+            ctx.known(fs[0])
+            ctx.cov['open_finding_probe'] = 'reproduced at attempt %d: %s' % (attempt + 1, parse_impl(out[0])['bad'])
+            return
+    ctx.cov['open_finding_probe'] = 'witness of the open finding did not fail in 3 runs (race not hit, or repaired)'
+    ctx.notes.append('open finding %s: witness did not reproduce in this run' % SHARED_SIG)
+
+
 def top_statements(prog):
     """a program's top-level statements (balanced bracket groups stay together)"""
     out, cur, depth = [], [], 0
@@ -409,6 +440,8 @@ CORPUS = [
     # TLS tables grow, rehash and shrink — Thread_Mark used to walk the foreign tables (ValueError / SIGSEGV
     # in the collecting thread, lost TLS bindings in the workers)
     '1g|0|S1 S2 S3 S4 w7,2000 J1 J2 J3 J4 P1|w6,300 e1|w6,300 e2|w6,300 e3|w6,300 e4',
+    # control of the open finding: the same shared Array NOT owned by a collector (new_raw): must pass
+    '1|0|S1 S2 w7,300 J1 J2|w8,100|w8,100',
     # exception nests in two threads + TLS + with-section + trylock section
     '2|1,2,1,2,0|S1 S2 e1 [ t3 e9 ]3 e4 } J1 J2 P1 P2|a1 a0 c s1,5 g1 [ g2 ] } o W0( i0 ) e2 w0,20 w3,30|[ [ t2 ]1 e5 } ] e6 } T1 i1 U1 m1 [ r1 ]0 o } a1 a1 u0 c w4,5',
     # four identical exception-heavy workers (a process-wide exception record would mix them up)
@@ -493,7 +526,7 @@ def run(ctx):
     else:
         run_model = None
         run_spec = lambda cs: [''] * len(cs)
-    d = vlib.Differential(ctx, 'threads', run_impl, run_model, run_spec, oracle, corr, nontrivial, split if drv else None, join if drv else None)
+    d = vlib.Differential(ctx, 'threads', run_impl, run_model, run_spec, oracle, corr, nontrivial, split if drv else None, join if drv else None, classify)
     safe = drv is None
 
     def usable(cases):
@@ -534,6 +567,7 @@ def run(ctx):
         d.report()
         return
     d.feed(usable(CORPUS), 'corpus')
+    known_finding_probe(ctx, lambda cs: ctx.run_lines(h, cs, env=env, timeout=600)[1])
     if quick:
         plan = [(None, None, False)] * 1000 + [(16, 8, False)] * 60 + [(4, 14, True)] * 40 + [(2, 22, True)] * 40
     else:
